@@ -129,6 +129,9 @@ Section Sim.
   Theorem xexec_main_old : forall fuel m, xexec_main A p strict fuel (xm m) = lift (exec_main A p fuel m).
   Proof.
     intros fuel m. unfold xexec_main, exec_main. destruct (rd1 (p_funs p) 0) as [f|]; [|reflexivity].
-    unfold xm at 1; cbn [x_core set_core]. apply xrun_old.
+    unfold xm at 1 2 3; cbn [x_core set_core].
+    change (mkX (mkMach (m_stack m) (m_globals m) 0 (repeat 0%Z (nn (f_ssize f)))) C H ce [] ar)
+      with (xm (mkMach (m_stack m) (m_globals m) 0 (repeat 0%Z (nn (f_ssize f))))).
+    rewrite xrun_old. destruct (run A p fuel 0 1 0 _) as [n m'| | |]; reflexivity.
   Qed.
 End Sim.
